@@ -45,7 +45,7 @@ class Run:
     """one observer on one scratch universe"""
 
     def __init__(self, recursive=True, full=False, as_bytes=False, root_spelling=None, small_reads=False, vanish_at=None,
-                 rm_fault_at=None, gate_reads=False, vanish_file=False, vanish_back=False, overflow_at=None):
+                 rm_fault_at=None, gate_reads=False, vanish_file=False, vanish_back=False, overflow_at=None, walk_fault_at=None):
         from watchdog.observers import inotify_c
         from watchdog.observers.inotify import InotifyObserver
 
@@ -90,6 +90,29 @@ class Run:
         self.overflows = 0
         if gate_reads or overflow_at is not None:
             inotify_c.os = _OsProxy()
+        # (d) a transient fault during a directory walk (the reader's walk of an arrived tree, the emitter's walk for the
+        #     synthetic sub-events): the k-th listing of a directory below the root finds that the directory has just been
+        #     replaced by a regular file (ENOTDIR from the kernel) - `os.scandir` itself is wrapped, whoever calls it
+        self._real_scandir = os.scandir
+        self.walk_fault_at = walk_fault_at
+        self.walk_calls = 0
+        self.walk_faults = []
+        if walk_fault_at is not None:
+            def scandir(path=".", _real=self._real_scandir):
+                try:
+                    pth = os.fsdecode(path)
+                except TypeError:
+                    return _real(path)
+                w = self.uni.p("W")
+                if self.started and pth.startswith(w + os.sep) and pth.count(os.sep) > w.count(os.sep) + 1:
+                    self.walk_calls += 1
+                    if self.walk_calls == self.walk_fault_at and os.path.isdir(pth) and not os.path.islink(pth):
+                        import shutil
+                        shutil.rmtree(pth, ignore_errors=True)
+                        open(pth, "w").close()
+                        self.walk_faults.append(self.uni.rel(pth))
+                return _real(path)
+            os.scandir = scandir
         self._real_add_watch = inotify_c.inotify_add_watch
         self.add_calls = 0
         self.vanished = []
@@ -259,6 +282,7 @@ class Run:
             threading.excepthook = self._old_hook
             self._kwd["event_buffer_size"] = self._old_size
             self._ic.os = self._real_os
+            os.scandir = self._real_scandir
             self.gate.set()
             self._ic.inotify_add_watch = self._real_add_watch
             self._ic.inotify_rm_watch = self._real_rm_watch
@@ -682,10 +706,10 @@ def gen_paced(r, n):
 
 
 def run_bursts(init_ops, bursts, recursive=True, full=False, small_reads=False, vanish_at=None, rm_fault_at=None, gate_reads=False,
-               vanish_file=False, vanish_back=False, overflow_at=None):
+               vanish_file=False, vanish_back=False, overflow_at=None, walk_fault_at=None):
     """every burst is issued while the reader is held off; returns the delivered events per burst, the trees and probes"""
     r = Run(recursive, full, False, small_reads=small_reads, vanish_at=vanish_at, rm_fault_at=rm_fault_at, gate_reads=gate_reads,
-            vanish_file=vanish_file, vanish_back=vanish_back, overflow_at=overflow_at)
+            vanish_file=vanish_file, vanish_back=vanish_back, overflow_at=overflow_at, walk_fault_at=walk_fault_at)
     try:
         for op in init_ops:
             r.uni.apply(op)
@@ -711,7 +735,7 @@ def run_bursts(init_ops, bursts, recursive=True, full=False, small_reads=False, 
                 probe_results.append((d, d.count("/"), seen))
                 r.step(("unlink", pr))
         return {"per_op": per, "applied": applied_all, "tree": tree, "initial_tree": initial_tree, "timeout": timeout,
-                "thread_errors": list(r.thread_errors), "probes": probe_results, "vanished": list(r.vanished), "rm_faults": r.rm_faults, "overflows": r.overflows,
+                "thread_errors": list(r.thread_errors), "probes": probe_results, "vanished": list(r.vanished), "rm_faults": r.rm_faults, "overflows": r.overflows, "walk_faults": list(r.walk_faults),
                 "root_gone": not r.root_exists(), "initial_outside": initial_outside}
     finally:
         r.stop()
